@@ -305,7 +305,40 @@ def _run_family(family, tier, mode="th", max_runs=None, procs=16, only=None):
             for i, sc in enumerate(scs)]
     with multiprocessing.get_context("fork").Pool(min(procs, len(jobs))) as pool:
         results = pool.map(_explore, jobs, chunksize=1)
+    # second phase: 2-thread scenarios that exhausted their budget are explored again with ALL
+    # processes sharing one visited table, until exhaustive (or a much larger budget)
+    big = 30000 if tier == "quick" else 200000
+    for i, r in enumerate(results):
+        sc = scs[i]
+        if r["exhaustive"] or len(sc.threads) != 2 or sc.pbound is not None:
+            continue
+        results[i] = _explore_big(sc, i, big, procs)
     return results
+
+
+def _explore_big(sc, idx, budget, procs):
+    base = os.path.join(tlc.scratch_root(), "concbig.%d.%d" % (os.getpid(), idx))
+    t0 = time.time()
+    try:
+        pr = conc.explore_parallel(sc, base, procs=procs, max_runs=budget)
+        ex = conc.Explorer(sc, os.path.join(base, "fu"), max_runs=0)
+        outs = []
+        for k, e in pr["outcomes"].items():
+            rec = e["rec"]
+            blocked, fres = False, []
+            if rec["outcome"] == "done":
+                r2 = ex.execute(tuple(rec["schedule"]), None, collect=False, followups=_followups(sc))
+                fres = r2["results"].get("followups", [])
+                blocked = any(x.get("cls") == "blocked" for x in fres)
+            outs.append({"rec": rec, "count": e["count"], "blocked": blocked,
+                         "followups": [x.get("cls") for x in fres]})
+        return {"scenario": sc.describe(), "family": sc.family, "start_abs": pr["start_abs"],
+                "outcomes": outs, "states": [v for v in pr["absstates"].values()],
+                "runs": pr["runs"], "steps": pr["steps"], "visited": pr["visited"],
+                "exhaustive": pr["exhaustive"], "nondet": pr["nondet"],
+                "wall": time.time() - t0, "inst": sc.inst_kw, "parallel": True}
+    finally:
+        shutil.rmtree(base, ignore_errors=True)
 
 
 def judge(results, inst_kw):
